@@ -192,8 +192,8 @@ Section Cover.
       { destruct (Nat.eq_dec a b) as [|N]; [assumption|]. pose proof (ids_increasing x WF a b ltac:(lia)). lia. }
       subst b. split.
       + split; [exists La; exact Va|]. split; [|cbn; discriminate].
-        intros es H e He. cbn in H. injection H as <-. rewrite it_cell_at in He.
-        exists (cell_at x a). split; [apply cell_at_in; exact Ha|exact He].
+        intros es H. cbn in H. injection H as <-.
+        exists (cell_at x a). split; [apply cell_at_in; exact Ha|]. cbn. rewrite <- it_id_at, it_cell_at. auto.
       + intros j Hj. assert (j = a) by lia. subst j. left. cbn. split; [apply it_id_at|rewrite it_cell_at; reflexivity].
     - apply Z.eqb_neq in E. assert (Lt : (a < b)%nat).
       { destruct (Nat.eq_dec a b) as [->|N]; [congruence|lia]. }
